@@ -107,9 +107,9 @@ PROPS = {
     "C10": plain([part("keys", "^TestC10$", 400, 12000, shards=8, steps=40, tsteps=60)],
                  "Cases are generated call sequences (Load, Store, LoadOrStore, LoadAndStore, LoadAndDelete, Delete, Compute store/delete, pointee mutation) over "
                  "a per-type key pool that contains ==-equal keys with different representations (strings in different backing arrays, +0/-0, structs whose padding bytes are "
-                 "0xFF garbage, interface values holding equal dynamic values, the nil interface, nil and non-nil pointers) and unequal look-alikes, for 28 key types "
+                 "0xFF garbage, interface values holding equal dynamic values, the nil interface, nil and non-nil pointers) and unequal look-alikes, for 32 key types "
                  "(string, named string, int, int8, uint8, uint16, int32, int64, uint64, uintptr, unsafe.Pointer, float32, float64, complex128, bool, pointer, struct pointer, chan, array, string array, "
-                 "array of interfaces, empty struct, padded struct, nested struct, struct with embedded struct and arrays of structs, struct with interface field, any, non-empty interface), on MapOf (default / constant hasher / presized) and CacheOf. Oracle: a builtin map[K]int fed the same calls (every result, "
+                 "array of interfaces, empty struct, padded struct, nested struct, struct with embedded struct and arrays of structs, struct with interface field, any, non-empty interface, and four pointer-free shapes whose ignored bytes are filled with different garbage per key: arrays of structs with trailing padding, a struct nesting them, arrays of structs with blank fields, arrays of pointer+byte structs), on MapOf (default / constant hasher / presized) and CacheOf. Oracle: a builtin map[K]int fed the same calls (every result, "
                  "values handed to Compute, Range as a set, Size); any panic on a valid key is a violation. evaluations = cases; non-trivial = an ==-equal key with a different "
                  "representation was used for a lookup, or all hashes collide (constant hasher), or a lookup followed a mutation of memory the key points to; distinct by hash of (type, container, calls). "
                  "The per-process hash key varies between the shard processes."),
@@ -131,7 +131,7 @@ PROPS = {
                   npart("long", "^TestC14Long$", {"shards": 4, "checks": 1, "timeout": 900, "env": {"VERIF_C14_LONG": 8}},
                         {"shards": 8, "checks": 1, "timeout": 3 * 3600, "env": {"VERIF_C14_LONG": 800}})],
                  "Cases are generated parallel programs (rapid Custom generator harvested with Example(seed): container in {Map, MapOf, Cache, CacheOf}, profile in {write-heavy, "
-                 "read-heavy, range-under-write, settings churn (SetDefaultExpiration/SetEvictedCallback/DeleteExpired/Items), clear/resize churn over 300-4000 keys, janitor on at 1 ms, big tables of 12000-30000 keys}, "
+                 "read-heavy, range-under-write, settings churn (SetDefaultExpiration/SetEvictedCallback/DeleteExpired/Items), clear/resize churn over 300-4000 keys, janitor on at 1 ms, big tables of 12000-30000 keys, shrink edge (a table grown by 200-2500 keys, drained to 3-6 toggled keys plus 0-16 that stay, so that the entry count moves across the shrink threshold; 16 fresh containers per program)}, "
                  "2-64 goroutines x 50-2000 calls, key range 1-400, per-goroutine op streams from the program's seed), each executed natively as its own Go subtest in a binary built "
                  "with -race. Oracle: the Go race detector (any report fails the subtest) and payload integrity: every value read back (also in visitors, Compute arguments, callbacks, "
                  "Items) is a pointer to a freshly initialised 72-byte payload whose checksum must be consistent. evaluations = programs; non-trivial = >= 2 goroutines share a key range "
@@ -140,8 +140,8 @@ PROPS = {
     "C15": plain([npart("janitor", "^TestC15$", {"shards": 4, "checks": 1, "timeout": 900, "env": {"VERIF_C15_CONFIGS": 16}},
                         {"shards": 4, "checks": 1, "timeout": 3 * 3600, "env": {"VERIF_C15_CONFIGS": 800}})],
                  "Cases are generated configurations (constructor variant x Cache/CacheOf x cleanup interval in {-5,0,2,3,5,10,20} ms x 1-60 caches x 0-50 entries with 1 ms TTL x 0-50 "
-                 "never-expiring entries x callback yes/no x 1-6 waves of further expiring entries stored either the moment a janitor pass is seen at work (first removal observed: mid-sweep) or after a pause of 0.3-15 ms x 0/50000/150000 never-expiring ballast entries that stretch every pass to milliseconds) run in real time. Oracle: interval > 0: with no user call on the keys Count() drops to the never-expiring population within "
-                 "max(200 intervals, 5 s) and the callback ledger holds every expired key exactly once and nothing else; interval <= 0: construction starts no goroutine, Count() is "
+                 "never-expiring entries x callback yes/no x 1-6 waves of further expiring entries stored either the moment a janitor pass is seen at work (first removal observed: mid-sweep) or after a pause of 0.3-15 ms x 0/50000/150000 never-expiring ballast entries that stretch every pass to milliseconds x callback replaced after construction (other ledger / nil) x one slow callback) run in real time. Oracle: interval > 0: with no user call on the keys Count() drops to the never-expiring population within "
+                 "max(200 intervals, 5 s) and the callback ledger holds every expired key exactly once and nothing else; interval > 0 also: in a third of the configurations the first evicted callback takes max(40 intervals, 300 ms) once (one sweep overruns), and after all waves three probe entries, each stored right after the previous one was seen removed, must be gone within max(25 intervals, 250 ms) - the pace may not depend on history; interval <= 0: Count() is "
                  "unchanged and no callback fires during a 60 ms window, DeleteExpired then cleans exactly; finally, after dropping all references and polling runtime.GC(), "
                  "runtime.NumGoroutine() is back at its baseline and a finalizer sentinel stored in a cache of the same kind has been released, within 10 s. A missed deadline is "
                  "re-run once in isolation; only a repeated miss is a violation. evaluations = cases; non-trivial = janitor configured with >= 1 expiring entry, or >= 2 caches dropped; "
